@@ -96,6 +96,9 @@ func handle(req *request) (resp interface{}) {
 	case "pathprobe":
 		u, imp, w := wire.VerifPathProbe(req.Name, req.Pkg)
 		return map[string]interface{}{"unvendored": u, "importable": imp, "iswire": w}
+	case "accessprobe":
+		msg, ok := wire.VerifAccessProbe(req.Pkg, req.Decls, req.Src, req.Expr, req.Name)
+		return map[string]interface{}{"ok": ok, "msg": msg}
 	case "valuecheck":
 		ok, msg := wire.VerifValueCheck(req.Decls, req.Expr)
 		return map[string]interface{}{"ok": ok, "msg": msg}
